@@ -1,0 +1,7 @@
+//go:build !verif
+
+// Package verifhook provides named yield points for the runtime-verification
+// harness. Without the `verif` build tag every call is an empty inlined function.
+package verifhook
+
+func Hit(name string) {}
